@@ -177,6 +177,69 @@ theorem binary_header_offset_k2_wrong :
 /-- ... while for `k ≥ 3` the fixture layout satisfies the hypothesis. -/
 theorem fixture_header_small (k : Nat) (hk : 3 ≤ k) : 68 < 28 * k := by omega
 
+/-- The whole binary import equals its specification — pixel `[line][element][scan]` is the Analog
+value of that element in that scan's record of that line's data file, the lines being the collected
+ones in collected order, the names those of the mass table — for every batch whose data files are
+laid out as `binary_pixel` requires (same `R`, `k`, header part `h` for every file; any number of
+lines), whenever the collection mechanism returns what its specification returns (which the
+collection theorems above establish reader by reader). -/
+theorem stack_pixel {α : Type} (m : Meta) (files : List (DataFile α)) (ms : List MassInfo)
+    (methods : List Method) (R k h : Nat)
+    (hids : ms.map (·.id) = List.range' 1 k)
+    (hfiles : ∀ f ∈ files, f.hasBinary = true ∧ ∃ bc, Layout R k h bc f.scans f.profile)
+    (hlines : linesOf m false methods = linesOf m true methods) :
+    loadBinary m files (some ms) methods = loadBinarySpec m files ms methods := by
+  unfold loadBinary loadBinarySpec
+  rw [hlines]
+  cases linesOf m true methods with
+  | error e => rfl
+  | ok lines =>
+    simp only [bind, Except.bind]
+    cases hd : allSome (lines.map (findFile files)) with
+    | none => rfl
+    | some dfs =>
+      have hmem := mem_files_of_lines files lines dfs hd
+      have hbin : (dfs.all (·.hasBinary)) = true := by
+        rw [List.all_eq_true]; exact fun f hf => (hfiles f (hmem f hf)).1
+      have hk : ms.length = k := by
+        have := congrArg List.length hids
+        simpa using this
+      have himg : allSome ((dfs.map (fun f => decode (ms.map (·.id)) f.scans f.profile)).map
+            (fun line => allSome (line.map allSome)))
+          = some (dfs.map (fun f => (List.range ms.length).map (column f.profile))) := by
+        rw [List.map_map, hids, hk]
+        apply allSome_map_of_forall
+        intro f hf
+        obtain ⟨bc, L⟩ := (hfiles f (hmem f hf)).2
+        exact decode_allSome L
+      have hn : (dfs.all (fun f => decide (f.scans.length = (dfs.head?.map (·.scans.length)).getD 0))) = true := by
+        rw [List.all_eq_true]
+        intro f hf
+        obtain ⟨bc, L⟩ := (hfiles f (hmem f hf)).2
+        cases dfs with
+        | nil => simp at hf
+        | cons f0 rest =>
+          obtain ⟨bc0, L0⟩ := (hfiles f0 (hmem f0 (by simp))).2
+          simp [L.nscans, L0.nscans]
+      simp only [orErr, hbin, himg, hn, Bool.not_true, Bool.false_eq_true, if_false, pure, Except.pure, throw,
+        throwThe, MonadExceptOf.throw]
+
+def exMeta : Meta :=
+  { listing := [⟨"10.d".toList, true⟩, ⟨"9.d".toList, true⟩, ⟨"Method".toList, true⟩],
+    xml := some [⟨pass, some "b\\10.d".toList⟩, ⟨"Fail".toList, some "b\\9.d".toList⟩, ⟨pass, some "b\\9.d".toList⟩],
+    csv := none, acq := none }
+
+def exFiles : List (DataFile Nat) :=
+  [{ name := "9.d".toList, hasBinary := true, scans := [⟨0, 56, 0⟩, ⟨56, 56, 1⟩], profile := [[1, 2], [3, 4]], csv := none },
+   { name := "10.d".toList, hasBinary := true, scans := [⟨0, 56, 0⟩, ⟨56, 56, 1⟩], profile := [[5, 6], [7, 8]], csv := none }]
+
+/-- non-vacuity of `stack_pixel`: two lines, two masses, a log with a failed and a repeated entry -/
+example : linesOf exMeta false [.batchXml] = linesOf exMeta true [.batchXml] := by rfl
+example : ∀ f ∈ exFiles, f.hasBinary = true ∧ ∃ bc, Layout 2 2 0 bc f.scans f.profile := by
+  intro f hf
+  simp only [exFiles, List.mem_cons, List.not_mem_nil, or_false] at hf
+  rcases hf with rfl | rfl <;> exact ⟨rfl, 56, ⟨rfl, rfl, by decide, by decide, by decide⟩⟩
+
 /-! ## mass table -/
 
 /-- Element `i` of the mass table is the `i`-th `Masses` element of MSTS_XSpecific.xml, its m/z
@@ -250,6 +313,19 @@ theorem validLines_spec (pre data foot : List Name) (header : Name)
 example : validLines false 0 ["D:\\x\\1.d".toList, "Intensity Vs Time,CPS".toList, "Time [Sec],P31".toList,
     "0.5,1.25".toList, "1.0,2.50".toList, "".toList, "   Printed: now".toList]
     = ["Time [Sec],P31".toList, "0.5,1.25".toList, "1.0,2.50".toList] := by decide
+
+/-- A line whose CSV is missing is zero-filled: every column (the time column included) of every
+scan is 0; a line whose CSV is present holds, at `[column][scan]`, field `column` of data row `scan`. -/
+theorem zero_fill (ncol nscan j r : Nat) (hj : j < ncol) :
+    (r < nscan → ((csvCols ncol nscan none)[j]?).bind (fun col => col[r]?) = some 0) ∧
+    (∀ t : Table, (∀ row ∈ t.rows, row.length = ncol) → r < t.rows.length →
+      ((csvCols ncol nscan (some t))[j]?).bind (fun col => col[r]?) = (t.rows[r]?).bind (fun row => row[j]?)) := by
+  constructor
+  · intro hr
+    simp [csvCols, hj, hr]
+  · intro t hrows hr
+    have hlen : j < (t.rows[r]).length := by rw [hrows _ (List.getElem_mem hr)]; exact hj
+    simp [csvCols, transpose, hj, hr, List.getD, hlen]
 
 /-- The reported scan time: the mean of all consecutive differences of a `rows × m` table of times
 is the sum over the rows of (last − first), divided by `rows·(m − 1)`. -/
